@@ -9,7 +9,9 @@ here=$(cd "$(dirname "$0")/.." && pwd)
 T=$(dirname "$(rustup +nightly which rustc)")/../lib/rustlib/x86_64-unknown-linux-gnu/bin
 rm -rf /tmp/cov && mkdir -p /tmp/cov/prof && cp -r "$here/harness" /tmp/cov/harness
 sed -i 's#target-dir = .*#target-dir = "/tmp/cov/target"#' /tmp/cov/harness/.cargo/config.toml
-(cd /tmp/cov/harness && RUSTFLAGS="-C instrument-coverage" CARGO_NET_OFFLINE=true cargo +nightly build --release --offline)
+# LLVM_PROFILE_FILE also during the build: instrumented build scripts / proc-macros would otherwise drop
+# default_*.profraw files into the crate directories of /repo
+(cd /tmp/cov/harness && LLVM_PROFILE_FILE=/tmp/cov/build-%p-%8m.profraw RUSTFLAGS="-C instrument-coverage" CARGO_NET_OFFLINE=true cargo +nightly build --release --offline)
 export VERIF_HARNESS=/tmp/cov/target/release/vharness LLVM_PROFILE_FILE=/tmp/cov/prof/h-%p-%8m.profraw
 for p in C01 C02 C03 C04 C05 C06 C07 C08 C09 C10 C11 C12 C13 C14 C15 C16 C17; do "$here/check" $p | tail -1; done
 unset VERIF_HARNESS LLVM_PROFILE_FILE
